@@ -123,6 +123,16 @@ fn decode_loop(
     let mut total_bytes_read = 0;
 
     loop {
+        #[cfg(feature = "verif-hooks")]
+        saphyr_parser::verif::emit(|| {
+            format!(
+                "{{\"k\":\"dec\",\"total\":{},\"inlen\":{},\"outlen\":{},\"cap\":{}}}",
+                total_bytes_read,
+                input.len(),
+                output.len(),
+                output.capacity()
+            )
+        });
         match decoder.decode_to_string_without_replacement(&input[total_bytes_read..], output, true)
         {
             // If the input is empty, we processed the whole input.
